@@ -22,7 +22,7 @@ logging.disable(logging.CRITICAL)
 ENCODED = [processing._detect_causes, processing.process_changing_cause, causes.detect_changing_cause,
            registries.ChangingRegistry.iter_handlers, inventory.ResourceMemories.recall]
 META = {
-    'bounds': 'one object; <=3 script steps (thorough 4) from {re-list (listing event in the same process), essential edit, restart (new '
+    'bounds': 'filtered_resume cells: the only resume handler is filtered out (label) when the process first sees the object; step label_on. one object; <=3 script steps (thorough 4) from {re-list (listing event in the same process), essential edit, restart (new '
               'process + listing), resume handler fails next time, delete request, non-essential edit, deletion requested while the operator is down}; the object was handled before '
               '(cell) or is new; quiescence bounded by 14 events.',
     'outside': 'several objects; watch-stream mechanics of a 410 (C19): a re-list is modelled as a listing event for the object',
